@@ -184,7 +184,12 @@ class CapturedPath:
 
   def _find_edge_from_path_to_segment(self, path, oriented_segment):
     edges = []
+    candidates = []
     for edge in oriented_segment.line.edges:
+      # (an edge from the segment to itself is listed twice)
+      if not any(edge is e for e in candidates):
+        candidates.append(edge)
+    for edge in candidates:
       if (edge.sid1 == oriented_segment and edge.sid2 == path[-1]) or \
          (edge.sid1 == path[-1] and edge.sid2 == oriented_segment):
         edges.append(gfapy.OrientedLine(edge, "+"))
